@@ -72,13 +72,20 @@ impl Block {
         &&& forall|j: int| 0 <= j < self.n() && self.is_rp(#[trigger] self.off_at(j)) ==> self.ev(j).shared == 0
         &&& self.sorted_ok()
     }
-    spec fn wf(&self) -> bool { self.wf0() && self.n() >= 1 }
+    spec fn wf(&self) -> bool { self.wf0() }
     #[verifier::opaque]
     spec fn sorted_ok(&self) -> bool { sorted(self.ents()) }
 }
 spec fn trunc(s: Seq<u8>, k: int) -> Seq<u8> { if 0 <= k < s.len() { s.subrange(0, k) } else { s } }
 
 // ---------------------------------------------------------------- facts about the chain
+// an empty block is one whose entries end at offset 0
+proof fn lemma_empty_block(b: Block)
+    requires b.wf0()
+    ensures (b.bnd() == 0) == (b.n() == 0)
+{
+    if b.n() >= 1 { assert(b.off_at(0) < b.bnd()); }
+}
 proof fn lemma_off_mono(b: Block, i: int, j: int)
     requires b.chain(b.n()), 0 <= i < j <= b.n()
     ensures b.off_at(i) < b.off_at(j)
